@@ -34,7 +34,8 @@ func DeepHash(roots ...any) uint64 {
 // object graph reachable from the roots: pointer targets once, maps by
 // len*(key+value size) plus contents, slices by cap*elem size plus contents
 // of the first len elements, strings by length, channel models by queued
-// elements. No GC, no MemStats: no noise and no threshold.
+// elements; the free lists of pool models are not counted (a sync.Pool is a
+// cache the collector empties). No GC, no MemStats: no noise and no threshold.
 func DeepSize(roots ...any) int64 {
 	h := &hasher{seen: map[unsafe.Pointer]int{}, sizing: true}
 	for _, r := range roots {
@@ -77,6 +78,9 @@ func skipType(t reflect.Type) (skip bool, special string) {
 	case p == "github.com/pion/logging", p == "log/slog", p == "log":
 		return true, ""
 	case p == "sync" || p == "sync/atomic":
+		return true, ""
+	case p == "bytes" && t.Name() == "Buffer":
+		// an io.Writer the application handed to the interceptor (dump output): the application's memory
 		return true, ""
 	}
 	return false, ""
@@ -269,11 +273,7 @@ func (h *hasher) special(v reflect.Value, kind string, depth int) {
 		h.mix(uint64(ks.Len()))
 		h.mix(acc)
 	case "pool":
-		if f := field(v, "free"); f.IsValid() && h.sizing {
-			for i := 0; i < f.Len(); i++ {
-				h.value(f.Index(i), depth+1)
-			}
-		}
+		// pooled objects are a cache the garbage collector may drop at any time: neither state nor retained memory
 	}
 }
 
